@@ -92,6 +92,8 @@ var filePool = []string{
 	"file://" + Prefix + "/api-shared/s.json", "file://" + Prefix + "/ap/t.json", "file://" + Prefix + "/api/sub-x/u.json",
 	// the same file name in another folder: identical relative spellings that mean different documents
 	"file://" + Prefix + "/lib/b.json", "file://" + Prefix + "/api/d.json",
+	// document URLs that extend one another as strings
+	"file://" + Prefix + "/api/a.json.bak", "file://" + Prefix + "/api/models", "file://" + Prefix + "/api/models-v2",
 }
 var httpPool = []string{"http://h.test/x/f.json", "http://h.test/x/y/i.json", "https://s.test/j.json", "http://h.test/n.json", "http://h.test/x-y/o.json",
 	// same path on another host / port / scheme
